@@ -134,6 +134,14 @@ CHECKS["C17"] = dict(
    note="Monitoring of a finite lattice, not prediction; heading commands != 0 are outside the property's stated domain and are reported as SPEC-DRIFT only (the loglinear outer loop diverges there - see DESIGN.md 13.4). RK4 instead of the script's cvodes. Built by a sub-task.",
 )
 
+CHECKS["C15"] = dict(
+   technique="TLA+ spec Controllers.tla (controller recursions as a state machine over the memory the caller feeds back; bounds as state invariants and as the inductive action property [][Bound => Bound']; exact integer-quaternion attitude error law) model-checked by TLC; every reachable transition replayed into the real CasADi functions and -simulate behaviours replayed with the code's own outputs fed back",
+   category="model_checking",
+   text="TLC explores the rate-integrator, height-integrator/feedback-saturation, velocity-input (yaw wrap with the +-pi tie nondeterministic, 2 m leash on Pythagorean errors, reset, vehicle motion) and stick-map machines to depth 48 (140 k distinct states quick, 1.3 M thorough) proving the property's bounds as invariants of the recursion and [][Bound => Bound'], plus the laws pinning each clamp/projection. Every step state is one real call of attitude_rate_control / position_control / input_velocity / input_acro / input_auto_level; 640-2000 simulated behaviours are replayed with the code's own memory fed back as scripts/rdd2_sim.py does; long random recursions check the bounds only. The attitude error law (attitude_control, so3_attitude_control, se23_error, se23_attitude_control) is checked on every signed pair of a rotation lattice against the exact oracle: zero iff same rotation (all four sign combinations incl. q_r = -q), command = principal rotation vector scaled by the gains, X Exp(cmd) = X_r.",
+   design_ref="6/C15",
+   note="Exact values the property does not promise (integrator value, congruent yaw, leashed point) are SPEC-DRIFT only. Attitude errors within 0.01 rad of 180 degrees excluded. Built by a sub-task; 7 code mutations detected; reproduces the (since fixed) SO3Quat.log sign defect on the pre-fix tree.",
+)
+
 NOT_YET = {}
 
 ALL = [f"C{i:02d}" for i in range(1, 21)]
